@@ -17,7 +17,7 @@ def pct(s):
 
 
 def rand_circuit(rng, n_in=None, n_gates=None, n_out=None, n_ff=None, style=None, p_unconn=0.1,
-                 p_direct=0.2, allow_consts=True, two_out_ff=True, p_dangling=0.1, xor_bias=0.0, p_orphan_ff=0.12):
+                 p_direct=0.2, allow_consts=True, two_out_ff=True, p_dangling=0.1, xor_bias=0.0, p_orphan_ff=0.12, p_forkchain=0.12):
     """returns a kyupy Circuit. style 'v': ports are cells 'input'/'output' around forks (Verilog reader style);
     style 'b': ports are forks (bench reader style)."""
     from kyupy.circuit import Circuit, Node, Line
@@ -73,6 +73,12 @@ def rand_circuit(rng, n_in=None, n_gates=None, n_out=None, n_ff=None, style=None
             direct.append(node)
         elif rng.random() < p_dangling:
             pass           # output left unconnected
+        elif rng.random() < p_forkchain:
+            # fork driving a fork, the DOWNSTREAM fork created first (as substitute() or hand-built circuits do): circuit.forks is
+            # then not in topological order
+            f2 = Node(c, f'g{g}_b'); f = Node(c, f'g{g}'); Line(c, (node, 0), f); Line(c, f, f2)
+            sigs.append(f2)
+            if rng.random() < 0.5: sigs.append(f)
         else:
             f = Node(c, f'g{g}'); Line(c, (node, 0), f); sigs.append(f)
     for d in direct:   # give leftover direct gates a fork
